@@ -270,6 +270,186 @@ fn run_reads<TC: akd::configuration::Configuration>(base: &[DbRecord], batch: &B
     })
 }
 
+pub struct PollRun {
+    pub publishes: Vec<Result<(u64, [u8; 32]), String>>,
+    /// per reader task, per request: (epoch signalled by the poller before the request started, outcome)
+    pub reads: Vec<Vec<(u64, Result<(u64, [u8; 32], bool), String>)>>,
+    /// requests on the same instance after everything has become quiet
+    pub after: Vec<(u64, Result<(u64, [u8; 32], bool), String>)>,
+    pub signals: Vec<u64>,
+    pub choices: Vec<Choice>,
+    pub trace: Vec<(usize, String, String)>,
+}
+
+async fn do_read<TC: akd::configuration::Configuration>(
+    r: &akd::directory::ReadOnlyDirectory<TC, SchedDb, HardCodedAkdVRF>,
+    op: &ReadOp,
+    pk: &akd::ecvrf::VRFPublicKey,
+) -> Result<(u64, [u8; 32], bool), String> {
+    match op {
+        ReadOp::EpochHash => r.get_epoch_hash().await.map(|e| (e.0, e.1, true)).map_err(|e| e.to_string()),
+        ReadOp::Lookup(u) => match r.lookup(u.clone()).await {
+            Ok((p, eh)) => Ok((eh.0, eh.1, akd::verify::lookup_verify::<TC>(pk.as_bytes(), eh.1, eh.0, u.clone(), p).is_ok())),
+            Err(e) => Err(e.to_string()),
+        },
+        ReadOp::History(u, params) => match r.key_history(u, *params).await {
+            Ok((p, eh)) => Ok((eh.0, eh.1, akd::verify::key_history_verify::<TC>(pk.as_bytes(), eh.1, eh.0, u.clone(), p, akd::verify::history::HistoryVerificationParams::Default { history_params: *params }).is_ok())),
+            Err(e) => Err(e.to_string()),
+        },
+        ReadOp::Audit(_, _) => Err("audit is not part of the poller scenario".into()),
+    }
+}
+
+/// a writer instance (task 0) publishes `batches` one after another; requests (tasks 1..) are served by a SECOND,
+/// read-only instance with its own cached storage manager on which the change poller runs (last task, a daemon).
+/// Every request notes the newest epoch the poller had signalled when it started.
+fn run_poll<TC: akd::configuration::Configuration>(base: &[DbRecord], batches: &[Batch], reads: &[ReadOp], reader_cache: &str, prefs: &[usize]) -> PollRun {
+    use akd::ecvrf::VRFKeyStorage;
+    use std::sync::atomic::AtomicU64;
+    let rt = tokio::runtime::Builder::new_current_thread().enable_all().start_paused(true).build().unwrap();
+    rt.block_on(async {
+        let db = SchedDb::from_records(base).await;
+        let latency = reader_cache.strip_prefix("lat:");
+        let wmgr = make_mgr(db.clone(), "none");
+        let writer = Directory::<TC, _, _>::new(wmgr, HardCodedAkdVRF {}, AzksParallelismConfig::disabled()).await.unwrap();
+        let rmgr = make_mgr(db.clone(), latency.unwrap_or(reader_cache));
+        let reader = akd::directory::ReadOnlyDirectory::<TC, _, _>::new(rmgr, HardCodedAkdVRF {}, AzksParallelismConfig::disabled()).await.unwrap();
+        let pk = HardCodedAkdVRF {}.get_vrf_public_key().await.unwrap();
+        // warm the reader's cache with the current epoch
+        for op in reads.iter() {
+            let _ = do_read::<TC>(&reader, op, &pk).await;
+        }
+        db.ctl.split_reads.store(latency.is_some(), Ordering::SeqCst);
+        let period = Duration::from_millis(50);
+        let daemon = reads.len() + 1;
+        let sig = Arc::new(AtomicU64::new(0));
+        let signals = Arc::new(std::sync::Mutex::new(Vec::<u64>::new()));
+        let (tx, mut rx) = tokio::sync::mpsc::channel::<()>(4);
+        db.ctl.enabled.store(true, Ordering::SeqCst);
+        // the poller
+        let rp = reader.clone();
+        let hpoll = tokio::spawn(TID.scope(daemon, async move {
+            let _ = rp.poll_for_azks_changes(period, Some(tx)).await;
+        }));
+        // forwards each notification: the epoch signalled is the one the poller last read from storage
+        let (ctl2, sig2, signals2) = (db.ctl.clone(), sig.clone(), signals.clone());
+        let hfwd = tokio::spawn(async move {
+            while rx.recv().await.is_some() {
+                let tr = ctl2.trace.lock().unwrap();
+                let e = tr.iter().rev().find(|(t, k, _)| *t == daemon && k == "get_azks").and_then(|(_, _, d)| d.strip_prefix('e').and_then(|x| x.parse::<u64>().ok())).unwrap_or(0);
+                drop(tr);
+                sig2.fetch_max(e, Ordering::SeqCst);
+                signals2.lock().unwrap().push(e);
+            }
+        });
+        let bs = batches.to_vec();
+        let w = writer.clone();
+        let hp = tokio::spawn(TID.scope(0, async move {
+            let mut out = vec![];
+            for b in bs {
+                out.push(w.publish(b).await.map(|e| (e.0, e.1)).map_err(|e| e.to_string()));
+            }
+            out
+        }));
+        let mut hr = vec![];
+        for (i, op) in reads.iter().enumerate() {
+            let r = reader.clone();
+            let op = op.clone();
+            let pk = pk.clone();
+            let sig = sig.clone();
+            let dbp = db.clone();
+            hr.push(tokio::spawn(TID.scope(i + 1, async move {
+                let mut out = vec![];
+                for _ in 0..3 {
+                    // the schedule decides when the request is issued
+                    dbp.pause().await;
+                    let s0 = sig.load(Ordering::SeqCst);
+                    out.push((s0, do_read::<TC>(&r, &op, &pk).await));
+                }
+                out
+            })));
+        }
+        let hp = Arc::new(hp);
+        let hr = Arc::new(hr);
+        let (hp2, hr2) = (hp.clone(), hr.clone());
+        let n = reads.len() + 2;
+        let choices = drive_daemon(&db.ctl, n, daemon, period, 8, prefs, &move |i| if i == 0 { hp2.is_finished() } else if i == daemon { false } else { hr2[i - 1].is_finished() }).await;
+        db.ctl.enabled.store(false, Ordering::SeqCst);
+        // release whatever the poller is waiting for and stop it
+        for (_, (_, nfy)) in std::mem::take(&mut *db.ctl.waiting.lock().unwrap()) {
+            nfy.notify_one();
+        }
+        tokio::task::yield_now().await;
+        hpoll.abort();
+        let _ = hpoll.await;
+        for _ in 0..20 {
+            tokio::task::yield_now().await;
+        }
+        hfwd.abort();
+        let publishes = match Arc::try_unwrap(hp).ok().unwrap().await {
+            Ok(r) => r,
+            Err(e) => vec![Err(format!("panicked: {e}"))],
+        };
+        let mut out = vec![];
+        for h in Arc::try_unwrap(hr).ok().unwrap() {
+            out.push(match h.await {
+                Ok(r) => r,
+                Err(e) => vec![(0, Err(format!("panicked: {e}")))],
+            });
+        }
+        // afterwards, on the same instance
+        let mut after = vec![];
+        let s0 = sig.load(Ordering::SeqCst);
+        after.push((s0, do_read::<TC>(&reader, &ReadOp::EpochHash, &pk).await));
+        for op in reads.iter() {
+            after.push((s0, do_read::<TC>(&reader, op, &pk).await));
+        }
+        let trace = db.ctl.trace.lock().unwrap().clone();
+        let signals = signals.lock().unwrap().clone();
+        PollRun { publishes, reads: out, after, signals, choices, trace }
+    })
+}
+
+/// the C13 oracle for one run of the poller scenario
+fn judge_poll(r: &PollRun, roots: &[[u8; 32]], base_epoch: u64, reads: &[ReadOp], daemon: usize) -> Vec<(String, String)> {
+    let mut out = vec![];
+    let mut published: Vec<(u64, [u8; 32])> = roots.iter().enumerate().map(|(e, h)| (e as u64, *h)).collect();
+    for p in r.publishes.iter().flatten() {
+        published.push(*p);
+    }
+    let mut all: Vec<(String, &(u64, Result<(u64, [u8; 32], bool), String>))> = vec![];
+    for (k, v) in r.reads.iter().enumerate() {
+        for x in v.iter() {
+            all.push((format!("{:?} (request of task {})", reads[k], k + 1), x));
+        }
+    }
+    for x in r.after.iter() {
+        all.push(("a request AFTER the run, on the same instance".to_string(), x));
+    }
+    for (which, (s0, rd)) in all {
+        if let Ok((e, h, verified)) = rd {
+            let bad = if !published.contains(&(*e, *h)) {
+                Some(("unpublished-epoch-hash", format!("answered with epoch {} and root {}, never published for that epoch", e, hex::encode(h))))
+            } else if !verified {
+                Some(("answer-does-not-verify", format!("the proof returned with epoch {} does not verify against the returned root hash", e)))
+            } else if *e < base_epoch {
+                Some(("epoch-went-back", format!("answered from epoch {} although {} was already published", e, base_epoch)))
+            } else if *e < *s0 {
+                // C13, last clause: once change polling has signalled a new epoch, later requests on that
+                // instance are answered from an epoch at least that new
+                Some(("older-than-signalled", format!("the request started after the poller had signalled epoch {} and was answered from epoch {}", s0, e)))
+            } else {
+                None
+            };
+            if let Some((tag, what)) = bad {
+                let calls: Vec<String> = r.trace.iter().map(|(t, k, d)| if d.is_empty() { format!("{t}:{k}") } else { format!("{t}:{k}:{d}") }).collect();
+                out.push((format!("poll-{tag}"), format!("schedule {} (poller = task {}), {}: {}; signals {:?}; storage calls in order: {}", show_sched(&r.choices), daemon, which, what, r.signals, calls.join(" "))));
+            }
+        }
+    }
+    out
+}
+
 fn parse_read_op(t: &[&str]) -> Option<ReadOp> {
     match t {
         ["epochhash"] => Some(ReadOp::EpochHash),
@@ -363,6 +543,113 @@ pub fn step(ex: &mut Exec, st: &mut L1State, op: &str, toks: &[&str]) -> Option<
                 (runs, violations)
             });
             ex.stats.bump(op, &format!("readers{}-bound{}-runs{}", reads.len(), bound, (runs / 100) * 100));
+            Some(format!("violations={violations}"))
+        }
+        "o.sch.poll.replay" if toks.len() >= 4 => {
+            // o.sch.poll.replay <schedule, task ids separated by ','> <reader cache> <read ops> || <batches>: ONE schedule, shown in full
+            let fx = st.fx.as_ref()?;
+            let prefs: Vec<usize> = toks[1].split(',').filter(|t| !t.is_empty()).map(|t| t.parse().ok()).collect::<Option<Vec<_>>>()?;
+            let rcache = toks[2].to_string();
+            let sep = toks.iter().position(|t| *t == "||")?;
+            let mut reads = vec![];
+            for part in toks[3..sep].split(|t| *t == "|") {
+                reads.push(parse_read_op(part)?);
+            }
+            let mut batches: Vec<Batch> = vec![];
+            for part in toks[sep + 1..].split(|t| *t == "||") {
+                let mut b: Batch = vec![];
+                let mut i = 0;
+                while i + 1 < part.len() {
+                    b.push((AkdLabel(parse_hex(part[i])?), AkdValue(parse_hex(part[i + 1])?)));
+                    i += 2;
+                }
+                batches.push(b);
+            }
+            let cfg = fx.cfg.clone();
+            let base = fx.records.clone();
+            let r = with_cfg!(cfg.as_str(), TC => run_poll::<TC>(&base, &batches, &reads, &rcache, &prefs));
+            let base_epoch = st.fx_roots.len() as u64 - 1;
+            for (tag, what) in judge_poll(&r, &st.fx_roots, base_epoch, &reads, reads.len() + 1) {
+                ex.fail_tag("C13", &tag, what);
+            }
+            let calls: Vec<String> = r.trace.iter().map(|(t, k, d)| if d.is_empty() { format!("{t}:{k}") } else { format!("{t}:{k}:{d}") }).collect();
+            let show = |x: &(u64, Result<(u64, [u8; 32], bool), String>)| match &x.1 {
+                Ok((e, _, v)) => format!("sig{}->e{}{}", x.0, e, if *v { "" } else { "!" }),
+                Err(_) => format!("sig{}->err", x.0),
+            };
+            if std::env::var("VERIF_SHOW_SCHEDULE").is_ok() {
+            eprintln!("schedule {} publishes {:?} reads {:?} after {:?} signals {:?}\n  calls {}", show_sched(&r.choices), r.publishes.iter().map(|p| p.as_ref().map(|x| x.0).map_err(|_| ())).collect::<Vec<_>>(),
+                r.reads.iter().map(|v| v.iter().map(show).collect::<Vec<_>>()).collect::<Vec<_>>(), r.after.iter().map(show).collect::<Vec<_>>(), r.signals, calls.join(" "));
+            }
+            Some("-".into())
+        }
+        "sch.poll" if toks.len() >= 4 => {
+            // sch.poll <max preemptions> <reader cache> <read op> [| <read op>]* || <batch> [|| <batch>]
+            let fx = st.fx.as_ref()?;
+            let bound: usize = toks[1].parse().ok()?;
+            let rcache = toks[2].to_string();
+            let sep = toks.iter().position(|t| *t == "||")?;
+            let mut reads = vec![];
+            for part in toks[3..sep].split(|t| *t == "|") {
+                reads.push(parse_read_op(part)?);
+            }
+            let mut batches: Vec<Batch> = vec![];
+            for part in toks[sep + 1..].split(|t| *t == "||") {
+                let mut b: Batch = vec![];
+                let mut i = 0;
+                while i + 1 < part.len() {
+                    b.push((AkdLabel(parse_hex(part[i])?), AkdValue(parse_hex(part[i + 1])?)));
+                    i += 2;
+                }
+                batches.push(b);
+            }
+            let cfg = fx.cfg.clone();
+            let base = fx.records.clone();
+            let base_epoch = st.fx_roots.len() as u64 - 1;
+            let roots = st.fx_roots.clone();
+            let max_runs = if st.thorough { 20_000 } else if bound >= 3 { 2_500 } else { 400 };
+            let daemon = reads.len() + 1;
+            let (runs, violations, signalled) = with_cfg!(cfg.as_str(), TC => {
+                let mut stack: Vec<Vec<usize>> = vec![vec![]];
+                let mut seen = std::collections::HashSet::new();
+                let (mut runs, mut violations, mut signalled) = (0usize, 0usize, 0usize);
+                while let Some(prefs) = stack.pop() {
+                    if runs >= max_runs {
+                        break;
+                    }
+                    let r = run_poll::<TC>(&base, &batches, &reads, &rcache, &prefs);
+                    let chosen: Vec<usize> = r.choices.iter().map(|c| c.chosen).collect();
+                    if !seen.insert(chosen.clone()) {
+                        continue;
+                    }
+                    runs += 1;
+                    if !r.signals.is_empty() {
+                        signalled += 1;
+                    }
+                    let enabled: Vec<Vec<usize>> = r.choices.iter().map(|c| c.enabled.clone()).collect();
+                    for s in prefs.len()..chosen.len() {
+                        for a in &enabled[s] {
+                            if *a != chosen[s] {
+                                let mut p = chosen[..s].to_vec();
+                                p.push(*a);
+                                let mut en = enabled[..s].to_vec();
+                                en.push(enabled[s].clone());
+                                if preemptions_daemon(&p, &en, daemon) <= bound {
+                                    stack.push(p);
+                                }
+                            }
+                        }
+                    }
+                    for (tag, what) in judge_poll(&r, &roots, base_epoch, &reads, daemon) {
+                        violations += 1;
+                        if violations <= 3 {
+                            ex.fail_tag("C13", &tag, what);
+                        }
+                    }
+                }
+                (runs, violations, signalled)
+            });
+            ex.stats.bump(op, &format!("readers{}-bound{}-runs{}-signalled{}", reads.len(), bound, (runs / 100) * 100, if signalled * 2 > runs { "most" } else if signalled > 0 { "some" } else { "none" }));
             Some(format!("violations={violations}"))
         }
         "sch.enum" if toks.len() >= 3 => {
